@@ -74,9 +74,9 @@ func groupBySQLScenario(r *Run, mode string) {
 	// tail and the real printers, see cli.go). Only where every printed value is an int or NULL (no time column
 	// in the key, no list): the encodings are C25's business, and the csv formatter cannot print a list at all.
 	printMode := ""
-	if mode == "C16" && !byTime && hdr.Chance(1, 3) {
+	if mode == "C16" && hdr.Chance(1, 3) {
 		printMode = OutputModes[hdr.Draw(len(OutputModes))]
-		sql = fmt.Sprintf("SELECT k, COUNT(v) AS c, SUM(v) AS s, MIN(v) AS m FROM sim.s s GROUP BY k%s", cfg.sql())
+		sql = fmt.Sprintf("SELECT %s, COUNT(v) AS c, SUM(v) AS s, MIN(v) AS m FROM sim.s s GROUP BY %s%s", key, key, cfg.sql())
 	}
 	attrs := map[string]string{"trigger": cfg.Kinds(), "by_time": fmt.Sprint(byTime)}
 	if noClause {
@@ -84,6 +84,15 @@ func groupBySQLScenario(r *Run, mode string) {
 	}
 	if printMode != "" {
 		attrs["output"] = printMode
+		// does the input contain late data (a record at or below a watermark already delivered)?
+		var wmSeen time.Time
+		for _, m := range script {
+			if m.Kind == MsgWM {
+				wmSeen = m.ET
+			} else if !m.ET.IsZero() && !wmSeen.IsZero() && !m.ET.After(wmSeen) {
+				attrs["late_input"] = "true"
+			}
+		}
 	}
 	r.Log("sql: %s (optimize=%v, watermarked=%v)", sql, optimize, watermarked)
 	r.Log("in: %s", ScriptString(script))
@@ -229,7 +238,11 @@ func groupBySQLScenario(r *Run, mode string) {
 			return
 		}
 		r.Log("printed:\n%s", ansiRe.ReplaceAllString(text, ""))
-		printed, derr := DecodePrinted(printMode, []string{"k", "c", "s", "m"}, text)
+		pcols := []string{"k", "c", "s", "m"}
+		if byTime {
+			pcols = []string{"k", "t", "c", "s", "m"}
+		}
+		printed, derr := DecodePrinted(printMode, pcols, text)
 		if derr != nil {
 			r.Violate("C16", "unreadable_output", attrs, "%v", derr)
 			return
